@@ -149,3 +149,45 @@ def run(ctx):
     se = f.calls('parsec_setenv_mca_param')
     rd.expect(len(se) == 1 and f.in_loop(se[0].block) and se[0].args[0].s == '%s[i]' % f.params[0]['n'] and se[0].args[1].s == '%s[i]' % f.params[1]['n'], 'add_to_env', se[0].loc if se else f.where(),
               'every collected parameter must be exported with its own value', note='setenv_mca_param(params[i], values[i]) for all i')
+    check_environ(ctx)
+
+
+def check_environ(ctx):
+    """--mca values reach the lookup through environ-like arrays of "NAME=value" strings (parsec_setenv_mca_param ->
+    parsec_setenv).  An entry belongs to a name only if it starts with the name *and the '=' that ends it*: every
+    comparison of an entry must be strncmp(entry, K, strlen(K)) with K built as "<name>=" - otherwise a parameter whose
+    name is a prefix of another one replaces (or removes) the other's value and that one resolves from a lower source."""
+    rf = ctx.rule('R38.f', 'environ arrays: an entry matches a name only together with its "=" terminator; --mca exports overwrite', floor=5)
+    u = ctx.extract('parsec/utils/parsec_environ.c')
+    for fname in ('parsec_setenv', 'parsec_unsetenv'):
+        f = u.func(fname); ctx.functions_analysed.add(fname)
+        name = f.params[0]['n']
+        cmps = [c for c in f.calls() if c.fn in ('strncmp', 'strcmp', 'memcmp', 'strncasecmp')]
+        rf.expect(bool(cmps), '%s:has-compare' % fname, f.where(), '%s must compare the entries of the array with the name' % fname, note='%s: %d entry comparison(s)' % (fname, len(cmps)))
+        for c in cmps:
+            ok = c.fn == 'strncmp' and len(c.args) == 3
+            why = 'must be strncmp(entry, "<name>=", strlen("<name>="))'
+            if ok:
+                ent = [a for a in c.args[:2] if '(*%s)[' % f.params[-1]['n'] in a.s]
+                key = [a for a in c.args[:2] if a not in ent]
+                ok = len(ent) == 1 and len(key) == 1 and key[0].k == 'ref'
+                if ok:
+                    k = key[0].s
+                    mk = [a for a in f.calls('asprintf') if a.args[0].s == '&' + k]
+                    ok = len(mk) == 1 and mk[0].args[1].k == 'str' and mk[0].args[1].n == '%s=' and mk[0].args[2].s == name and f.dominates(mk[0].point, c.point)
+                    why = 'the key %s must be built by asprintf(&%s, "%%s=", %s) before the comparison' % (k, k, name)
+                    if ok:
+                        ln = c.args[2]
+                        if ln.k == 'ref':
+                            d = [s_ for s_ in f.stores() if s_.lhs.s == ln.s]
+                            ok = len(d) == 1 and d[0].rhs is not None and d[0].rhs.k == 'call' and d[0].rhs.n == 'strlen' and d[0].rhs.ch[0].s == k and f.dominates(d[0].point, c.point) \
+                                and f.ordered(mk[0], d[0])
+                        else:
+                            ok = ln.k == 'call' and ln.n == 'strlen' and ln.ch[0].s == k
+                        why = 'the compared length must be strlen(%s), the name with its "="' % k
+            rf.expect(ok, '%s:compare-with-terminator' % fname, c.loc, '%s: %s (got %s)' % (fname, why, c.e.s), note='%s: strncmp(entry, "<name>=", strlen("<name>="))' % fname)
+    f = ctx.extract(U1).func('parsec_setenv_mca_param'); ctx.functions_analysed.add(f.name)
+    se = f.calls('parsec_setenv'); nm = f.calls('parsec_mca_var_env_name')
+    ok = len(se) == 1 and len(nm) == 1 and nm[0].args[0].s == f.params[0]['n'] and nm[0].args[1].s == '&' + se[0].args[0].s and se[0].args[1].s == f.params[1]['n'] and se[0].args[2].cv == 1 \
+        and se[0].args[3].s == f.params[2]['n'] and f.ordered(nm[0], se[0])
+    rf.expect(ok, 'setenv_mca_param', f.where(), 'parsec_setenv_mca_param must export env_name(param)=value with overwrite into the given array', note='setenv(env_name(param), value, overwrite, env)')
